@@ -639,7 +639,7 @@ func ReadVarlena(data []byte) ([]byte, int) {
 	// Check for short varlena (1-byte header, bit 0 set but not just 0x01)
 	if first&1 == 1 && first != 1 {
 		totalLen := int(first >> 1)
-		if totalLen <= 1 || len(data) < totalLen {
+		if totalLen < 1 || len(data) < totalLen {
 			return nil, 1
 		}
 		return data[1:totalLen], totalLen
